@@ -14,7 +14,9 @@ import json
 
 PROPERTY = "C19"
 RULE = ("[selected_fields has its own direct oracle: listed path set = reference path set for maxdepth None/0/1/2/3 and fnmatch patterns; "
-        "the rule is also driven through graphql_blocking(validators=[rule]) with request variables] ""documents = a base selection tree over `type Query {a: Query b: Query c: Int d: Int}` (aliases x->a, y->b, z->c so "
+        "the rule is also driven through graphql_blocking(validators=[rule]) with request variables; HISTORIES: one parsed Document and one "
+        "rule instance per (limit, filter) reused over 8-14 calls with varying variables / filters / limits, each result = fresh instance on a "
+        "freshly parsed document = specification] ""documents = a base selection tree over `type Query {a: Query b: Query c: Int d: Int}` (aliases x->a, y->b, z->c so "
         "equal response keys are always mergeable), distributed over inline fragments (typed/untyped) and named fragments: "
         "EXHAUSTIVE for two small base operations (every partition of every selection list into contiguous blocks, each "
         "block plain / inline / spread), SAMPLED for larger ones (1-3 operations, shared fragments, @skip/@include with "
@@ -32,6 +34,8 @@ ASSUMPTIONS = [
     "type conditions are ignored by the untyped collection and by the specification alike (depth is an upper bound over all runtime types)",
 ]
 TRUSTED = [
+    "the Lean model of the rule is a pure function of (limit, filter, document, variables): that the implementation keeps no state "
+    "between calls (instance, Document nodes, module) is checked by the history stream, not proved",
     "harness/corr/C19.py: conversion of the parsed py_gql AST into the minimal JSON document of Driver/C19.lean (checked on every "
     "generated document against the generator's own tree) and the Python reference depth (cross-checked against the Lean spec on every case)",
     "Lean `Doc.fuel`/`acyclic` are computed from the fragment weights; `acyclic` is compared with the NoFragmentCycles verdict of the real validator on every document",
@@ -523,6 +527,22 @@ class Real:
         except Exception as e:  # noqa
             return "exc:" + type(e).__name__
 
+    def flags_with(self, rule, document, vs, via_validate=False):
+        """like `flags`, with a GIVEN rule instance and a GIVEN parsed document (histories)"""
+        ops = [d for d in document.definitions if isinstance(d, self.A.OperationDefinition)]
+        try:
+            if via_validate:
+                errs = self.validate_ast(self.schema, document, validators=[rule], variables=vs).errors
+            else:
+                errs = rule(self.schema, document, vs)
+            out = []
+            for e in errs:
+                idx = [i for i, o in enumerate(ops) if any(n is o for n in e.nodes)]
+                out.append(idx[0] if len(idx) == 1 and len(e.nodes) == 1 else -1)
+            return out
+        except Exception as e:  # noqa
+            return "exc:" + type(e).__name__
+
     def paths(self, document, vs, maxdepth):
         out = []
         for d in document.definitions:
@@ -911,8 +931,22 @@ def run(ctx):
         ctx.stat("exhaustive", k)
     flush()
 
+    # --- histories: hand-written -------------------------------------------------------------
+    for text, steps in HISTORY_CORPUS:
+        hdoc = conv_doc(real.parse(text))
+        got = run_history(real, text, steps)
+        ctx.count(len(steps))
+        ctx.stat("history-corpus")
+        for k, (st, g) in enumerate(zip(steps, got)):
+            want = expected_flags(hdoc, st[2], st[0], st[1])
+            if g != want and fresh_results(real, text, [st])[0] == want:
+                ctx.fail("history:%s:corpus" % ("stale-flag" if isinstance(g, list) else "raises"),
+                         "the result of MaxDepthValidationRule depends on earlier calls of the same instance on the same Document",
+                         {"text": text, "history": steps[:k + 1], "got_last": g, "expected_last": want})
+                break
+
     # --- sampled larger documents ---------------------------------------------------------
-    n = ctx.n(420, 2600)
+    n = ctx.n(340, 2400)
     for j in range(n):
         if ctx.time_left() < 8:
             ctx.notes.append("sampled stream stopped early at %d/%d" % (j, n))
@@ -946,6 +980,8 @@ def run(ctx):
         ctx.stat("sampled")
         if j < 60 and used:
             entry_point_probe(ctx, real, doc, assigns[0])
+        if used:
+            history_check(ctx, real, doc, assigns, ctx.n(7, 14))
         ctx.stat("sampled-with-wrapper-directives" if base is None else "sampled-with-base(wrap oracle)")
         if j < 3:
             ctx.sample({"text": p_doc(doc), "variables": assigns[0], "spec_depths": [ref_depth(doc, i, assigns[0]) for i in range(len(doc["ops"]))]})
@@ -992,6 +1028,79 @@ def entry_point_probe(ctx, real, doc, vs):
             return
 
 
+def run_history(real, text, steps):
+    """One parsed Document and one rule instance per (limit, filter), reused over the whole sequence.
+       steps: [[limit, filter, variables, via_validate_ast]]. Returns the results, one per step."""
+    document = real.parse(text)
+    instances = {}
+    out = []
+    for limit, filt, vs, via in steps:
+        key = (limit, filt)
+        if key not in instances:
+            instances[key] = real.Rule(limit, operation_name=filt)
+        out.append(real.flags_with(instances[key], document, dict(vs), via_validate=via))
+    return out
+
+
+def fresh_results(real, text, steps):
+    """the same calls, each on a fresh rule instance and a freshly parsed document"""
+    return [real.flags(real.parse(text), dict(vs), limit, filt, via_validate=via) for limit, filt, vs, via in steps]
+
+
+def history_check(ctx, real, doc, assigns, nsteps):
+    """HISTORIES: the result of a call must not depend on earlier calls of the same rule instance / on the same Document
+       object: it must equal the result of a fresh instance on a freshly parsed document (= the specification)."""
+    text = p_doc(doc)
+    depths = sorted({ref_depth(doc, i, vs) for vs in assigns for i in range(len(doc["ops"]))})
+    limits = sorted({max(d - 1, 0) for d in depths} | set(depths[:-1] or depths))[:4] or [0]
+    filters = filters_of(doc)[:3]
+    steps = []
+    for _ in range(nsteps):
+        steps.append([ctx.rng.choice(limits), ctx.rng.choice(filters) if ctx.rng.random() < 0.4 else None,
+                      ctx.rng.choice(assigns), ctx.rng.random() < 0.25])
+    got = run_history(real, text, steps)
+    ctx.count(len(steps))
+    ctx.stat("history-steps", len(steps))
+    if len(depths) > 1:
+        ctx.stat("histories-where-variables-change-the-depth")
+        ctx.nontrivial(("history", text, json.dumps(steps, sort_keys=True)))
+    for k, (st, g) in enumerate(zip(steps, got)):
+        want = expected_flags(doc, st[2], st[0], st[1])
+        if g == want:
+            continue
+        fresh = fresh_results(real, text, [st])[0]
+        if fresh != want:
+            return          # not history dependence: the plain oracle reports this input
+        # shrink: one earlier step that is enough to make step k go wrong
+        small = steps[:k + 1]
+        for j in range(k):
+            cand = [steps[j], st]
+            if run_history(real, text, cand)[-1] != want:
+                small = cand
+                break
+        first, last = small[0], small[-1]
+        changed = "+".join(n for n, a, b in (("variables", first[2], last[2]), ("limit", first[0], last[0]),
+                                             ("filter", first[1], last[1])) if a != b) or "same-call"
+        same_inst = (first[0], first[1]) == (last[0], last[1])
+        ctx.fail("history:%s:%s:%s" % ("stale-flag" if isinstance(g, list) else "raises",
+                                       "same-instance" if same_inst else "same-document", changed),
+                 "the result of MaxDepthValidationRule depends on earlier calls (%s reused; %s differ between the calls): "
+                 "it differs from a fresh instance on a freshly parsed document" % ("rule instance and Document" if same_inst else "Document", changed),
+                 {"text": text, "history": small, "got_last": run_history(real, text, small)[-1], "expected_last": want})
+        return
+
+
+HISTORY_CORPUS = [
+    # (text, steps)  -- the shape named by the integrator: depth 1 / 3 steered by one variable, limit 2
+    ("query($deep: Boolean!) { a { c a @include(if: $deep) { a { c } } } }",
+     [[2, None, {"deep": False}, False], [2, None, {"deep": True}, False]]),
+    ("query($deep: Boolean!) { a { c a @include(if: $deep) { a { c } } } }",
+     [[2, None, {"deep": True}, False], [2, None, {"deep": False}, False]]),
+    ("query A($deep: Boolean!) { a { c ...F @skip(if: $deep) } } query B { c } fragment F on Query { a { a { a { c } } } }",
+     [[1, "A", {"deep": True}, True], [1, "A", {"deep": False}, True], [1, None, {"deep": True}, False], [3, "A", {"deep": False}, False]]),
+]
+
+
 def doc_with_types(doc):
     return doc
 
@@ -999,6 +1108,11 @@ def doc_with_types(doc):
 def replay(ctx, data):
     inp = data.get("input", {})
     real = Real()
+    if "history" in inp:
+        steps = inp["history"]
+        hdoc = conv_doc(real.parse(inp["text"]))
+        got = run_history(real, inp["text"], steps)
+        return all(g == expected_flags(hdoc, st[2], st[0], st[1]) for st, g in zip(steps, got))
     if inp.get("entry_point"):
         from py_gql import graphql_blocking
         from py_gql.exc import ValidationError
